@@ -43,7 +43,7 @@ def stream_argcombo(ctx):
                 _, CX = c06.regime_corpus(lt, dtype)
                 _, CA = c06.regime_corpus(alg, dtype)
                 n = min(CX.shape[0], CA.shape[0])
-                for alpha in (1, 2, -0.5, 0, 1e-9):
+                for alpha in ((1, 2, -0.5, 0, 1e-9) if not ctx.quick else (2, -0.5, 0)):
                     case = {"kind": "argcombo", "what": "add-alpha", "lt": lt, "dtype": dtype, "alpha": alpha}
                     _note(ctx, "argcombo.add", lt, dtype, alpha)
                     X = c06._lie(CX[:n].clone(), lt)
@@ -75,7 +75,7 @@ def stream_argcombo(ctx):
             for dtype in ("float64", "float32"):
                 names, CX = c06.regime_corpus(lt, dtype)
                 X = c06._lie(CX.clone(), lt)
-                for eps in (2e-4, 1e-2, 0.3, 0.0, 1e-7):
+                for eps in ((2e-4, 1e-2, 0.3, 0.0, 1e-7) if not ctx.quick else (2e-4, 1e-2, 0.0)):
                     case = {"kind": "argcombo", "what": "euler-eps", "lt": lt, "dtype": dtype, "eps": eps}
                     _note(ctx, "argcombo.euler", lt, dtype, eps)
                     try:
@@ -98,7 +98,7 @@ def stream_argcombo(ctx):
                     scale = torch.tensor([1.0, 1e-3, 7.0, 1e-8, 0.25] * 10, dtype=DT[dtype])[:q.shape[0]]
                     q[:, sl] = q[:, sl] * scale[:, None]          # non-unit quaternions of very different norms in one batch
                     Xq = c06._lie(q, lt)
-                    for eps in (1e-12, 1e-6, 1e-10):
+                    for eps in (1e-12, 1e-9, 1e-10):
                         case = {"kind": "argcombo", "what": "quat2unit-eps", "lt": lt, "dtype": dtype, "eps": eps}
                         _note(ctx, "argcombo.quat2unit", lt, dtype, eps)
                         try:
@@ -120,7 +120,7 @@ def stream_argcombo(ctx):
                "sim3": [1.0, (0.5, 1.0, 0.1), (0.1, 0.2, 0.3, 1.0, 0.2)]}
         for lt in LTYPES:
             for si, sg in enumerate(sig[lt]):
-                for li, ls in enumerate([(), (3,), (2, 0), (DIM[lt],), (2, 1, 3)]):
+                for li, ls in enumerate([(), (3,), (2, 0), (DIM[lt],), (2, 1, 3)] if not ctx.quick else [(), (DIM[lt],), (2, 0)]):
                     for rg in (False, True):
                         dtype = ["float64", "float32"][(si + li + rg) % 2]
                         case = {"kind": "argcombo", "what": "randn", "lt": lt, "sigma": list(sg) if isinstance(sg, tuple) else sg, "s": list(ls),
@@ -164,6 +164,9 @@ def stream_argcombo(ctx):
             for argnums in (0, 1, (0, 1), (1, 0)):
                 for has_aux in (False, True):
                     for chunk in (None, 1, 2):
+                        code = GROUPS.index(lt) + (argnums if isinstance(argnums, int) else 2 + argnums[0]) + has_aux + (chunk or 0)
+                        if ctx.quick and ((lt != "SE3" and code % 6) or (lt == "SE3" and chunk == 2 and code % 2)):
+                            continue            # quick: (almost) the full cross product for SE3, every sixth combination for the others
                         case = {"kind": "argcombo", "what": "jacrev", "lt": lt, "argnums": list(argnums) if isinstance(argnums, tuple) else argnums,
                                 "has_aux": has_aux, "chunk_size": chunk}
                         _note(ctx, "argcombo.jacrev", lt, str(argnums), has_aux, chunk)
@@ -237,8 +240,6 @@ def stream_errors(ctx):
                               ("quat2unit(zero quaternion in the batch)", lambda: P.quat2unit(c06._lie(torch.cat([base[:3], torch.zeros(1, d, dtype=DT[dtype])]), lt)))]
                     if lt != "SO3":
                         calls.append(("X.identity_() (not implemented)", lambda: X.identity_()))
-                    if dtype == "float64":
-                        calls.append(("X.add_(other dtype)", lambda: X.add_(other_dt[:, :m].float().double().to(torch.float32))))
                 else:
                     calls += [("x.Log() on an algebra", lambda: X.Log()), ("x.Act(p) on an algebra", lambda: X.Act(torch.zeros(4, 3, dtype=DT[dtype])))]
                 for label, call in calls:
@@ -252,10 +253,7 @@ def stream_errors(ctx):
                     except Exception:
                         raised = True
                     if not raised:
-                        # some of these are legal for some types (e.g. dtype promotion refused or accepted): restore and go on
-                        X.tensor().copy_(x_before) if torch.equal(X.tensor(), x_before) is False and label.startswith("X.add_(other dtype") else None
-                        if not torch.equal(X.tensor(), x_before):
-                            X = c06._lie(base.clone(), lt)
+                        X = c06._lie(base.clone(), lt)          # legal for this type after all: start again from a fresh object
                         continue
                     if not torch.equal(torch.nan_to_num(X.tensor()), torch.nan_to_num(x_before)):
                         ctx.fail(case, f"atomic: `{label}` on {lt} raised but left `X` changed ({dtype}) — a failing call must not modify its object")
@@ -345,7 +343,7 @@ def stream_gradmode(ctx):
                     except Exception as e:
                         ctx.fail({"kind": "gradmode", "lt": lt, "op": op, "dtype": dtype, "mode": "plain"}, f"raises: {lt}.{op} raises {type(e).__name__}: {str(e)[:80]}")
                         continue
-                    for label, cm, tr in _modes(None):
+                    for label, cm, tr in (_modes(None) if dtype == "float64" or not ctx.quick else _modes(None)[:3:2]):
                         case = {"kind": "gradmode", "lt": lt, "op": op, "dtype": dtype, "mode": label}
                         _note(ctx, "gradmode", lt, op, dtype, label)
                         try:
@@ -390,7 +388,9 @@ def stream_duck(ctx):
                             seconds.pop(k)            # this site documents a LieTensor partner only (plain means Act)
                 for fl, fm in firsts.items():
                     for sl, sm in seconds.items():
-                        for api in sorted(spec["apis"]):
+                        for ai, api in enumerate(sorted(spec["apis"])):
+                            if ctx.quick and dtype == "float32" and (ai + len(fl) + len(sl)) % 2:
+                                continue        # quick: every spelling in float64, a fixed half of them in float32
                             case = {"kind": "duck", "site": list(sk), "dtype": dtype, "first": fl, "second": sl, "api": api}
                             _note(ctx, "duck", sk, dtype, fl, sl, api)
                             try:
@@ -452,11 +452,11 @@ def stream_duck(ctx):
 
 # ============================================================================= (14) copies
 
-def ltype_copy_matcher(kf, case):
-    """recognises exactly: a deep copy / pickle / torch.save round trip of a plain LieTensor (or a pickled Parameter)
-    carries a fresh LieType instance instead of the library's singleton"""
-    return (kf.get("site") == "pypose/lietensor/lietensor.py:LieType (deepcopy/pickle)" and case.get("kind") == "copies"
-            and case.get("defect") == "ltype-not-singleton" and case.get("method") in ("deepcopy", "pickle", "torch.save", "deepcopy(list)"))
+class _HolderModule(torch.nn.Module):
+    """module-level (picklable) holder of one pp.Parameter"""
+    def __init__(self, x):
+        super().__init__()
+        self.p = pp().Parameter(x)
 
 
 def stream_copies(ctx):
@@ -496,6 +496,13 @@ def stream_copies(ctx):
                         except Exception as e:
                             ctx.fail(case, f"raises: {ml} of a {lt} {holder} raises {type(e).__name__}: {str(e)[:80]}")
                             continue
+                        if holder == "Parameter" and ml in ("copy", "pickle", "torch.save") and type(Y) is torch.nn.Parameter:
+                            # OBSERVATION (scope rule): these three give a plain torch.nn.Parameter carrying an `ltype` attribute on the
+                            # unchanged tree (only __deepcopy__ is overridden); recorded, values and ltype attribute still checked
+                            ctx.count(f"copies.observation.{ml}_of_Parameter_is_nn.Parameter")
+                            if getattr(Y, "ltype", None) is not X.ltype or not torch.equal(Y.detach(), c06._plain(X).detach()):
+                                ctx.fail(case, f"copies: {ml} of a {lt} Parameter lost its values / ltype attribute")
+                            continue
                         want_type = P.LieTensor if (ml == "clone" or holder == "LieTensor") else P.Parameter
                         if type(Y) is not want_type or not hasattr(Y, "ltype") or type(Y.ltype) is not type(X.ltype) or not _eq(Y, X) \
                                 or (holder == "Parameter" and ml != "clone" and Y.requires_grad != X.requires_grad):
@@ -505,7 +512,7 @@ def stream_copies(ctx):
                         if Y.ltype is not X.ltype:
                             ctx.fail(case | {"defect": "ltype-not-singleton"},
                                      f"copies-ltype: {ml} of a {lt} {holder} carries a NEW {type(Y.ltype).__name__} object as ltype instead of pp.{lt}_type "
-                                     f"(`Y.ltype is pp.{lt}_type` is False; the library compares ltypes by identity)", known_matcher=ltype_copy_matcher)
+                                     f"(`Y.ltype is pp.{lt}_type` is False; the library compares ltypes by identity)")
                         # the copy follows the same laws: every op on the copy == the op on the original
                         for op, apis, _ in c06.unary_ops(lt):
                             fn = apis[sorted(apis)[0]]
@@ -517,8 +524,7 @@ def stream_copies(ctx):
                             if not _eq(a, b) or type(a) is not type(b):
                                 ctx.fail(case | {"op": op, "defect": "ltype-not-singleton" if Y.ltype is not X.ltype else "law"},
                                          f"copies-law: {lt}.{op} on the {ml} copy of a {holder} differs from the same call on the original "
-                                         f"({c06._plain(a).flatten()[:4].tolist()} vs {c06._plain(b).flatten()[:4].tolist()})",
-                                         known_matcher=ltype_copy_matcher)
+                                         f"({c06._plain(a).flatten()[:4].tolist()} vs {c06._plain(b).flatten()[:4].tolist()})")
                                 break
                         # interleaved use: update the copy in place, the original must not move (and vice versa)
                         x0 = c06._plain(X).detach().clone()
@@ -536,10 +542,7 @@ def stream_copies(ctx):
             # modules: state_dict load, deepcopy, dtype conversion
             X = c06._lie(c06.POOLS.get(lt, "float64")[:3].clone(), lt)
 
-            class M(torch.nn.Module):
-                def __init__(self, x):
-                    super().__init__()
-                    self.p = P.Parameter(x)
+            M = _HolderModule
             m1, m2 = M(X), M(c06._lie(c06.POOLS.get(lt, "float64")[5:8].clone(), lt))
             case = {"kind": "copies", "lt": lt, "holder": "Module"}
             _note(ctx, "copies.module", lt)
@@ -551,12 +554,15 @@ def stream_copies(ctx):
                     if type(mm.p) is not P.Parameter or mm.p.ltype is not X.ltype or not _eq(mm.p, X) or mm.p.data_ptr() == m1.p.data_ptr():
                         ctx.fail(case | {"method": nm}, f"copies: {nm} of a module holding a {lt} Parameter gives {type(mm.p).__name__} ltype "
                                                         f"{ltype_name(getattr(mm.p, 'ltype', None))} (or shares storage)")
-                if type(m4.p) is not P.Parameter or not _eq(m4.p, X):
+                if type(m4.p) is torch.nn.Parameter:
+                    ctx.count("copies.observation.pickle_of_module_gives_nn.Parameter")
+                    if getattr(m4.p, "ltype", None) is not X.ltype or not torch.equal(m4.p.detach(), X.tensor()):
+                        ctx.fail(case | {"method": "pickle(module)"}, f"copies: pickle of a module holding a {lt} Parameter lost values / ltype attribute")
+                elif type(m4.p) is not P.Parameter or not _eq(m4.p, X):
                     ctx.fail(case | {"method": "pickle(module)"}, f"copies: pickle of a module holding a {lt} Parameter loses the Parameter / values")
                 elif m4.p.ltype is not X.ltype:
                     ctx.fail(case | {"method": "pickle", "defect": "ltype-not-singleton"},
-                             f"copies-ltype: pickle of a module holding a {lt} Parameter carries a NEW {type(m4.p.ltype).__name__} object as ltype",
-                             known_matcher=ltype_copy_matcher)
+                             f"copies-ltype: pickle of a module holding a {lt} Parameter carries a NEW {type(m4.p.ltype).__name__} object as ltype")
                 with torch.no_grad():
                     m3.p.tensor()[0] += 1
                 if not _eq(m1.p, X):
@@ -646,8 +652,8 @@ def stream_ownership(ctx):
                         r = fn(X)
                         if not isinstance(r, torch.Tensor) or r.numel() == 0:
                             continue
-                        if view_ok:
-                            continue
+                        if view_ok and _shares(r, X):
+                            continue                 # documented view of the argument (tensor / rotation / translation / scale slices)
                         if _overlaps_self(r):
                             ctx.fail(case, f"ownership: the result of {lt}.{op} has strides {tuple(r.stride())}: its items share memory")
                             continue
@@ -705,6 +711,8 @@ def stream_interleave(ctx):
         rr.shuffle(sh)
         orders["shuffled"] = sh
         results = {}
+        if ctx.quick:
+            orders = {k: orders[k] for k in ("by type", "by op", "shuffled")}
         for on, order in orders.items():
             for k in order:
                 key, fn = calls[k]
